@@ -72,6 +72,9 @@ func c04(e *Env) {
 	if w.Stopped() {
 		return
 	}
+	if !f.clientsStillOpen("c04-connection") {
+		return
+	}
 	checked, unsafeSeen := 0, 0
 	for _, cl := range f.clients {
 		for _, r := range cl.Reqs {
